@@ -347,6 +347,29 @@ func derivesOnlyFromParam(v ssa.Value, p *ssa.Parameter) bool {
 // c20deliver: the layered value reaches the NodeSLO object and the cache never regresses.
 func c20deliver(c *Ctx) {
 	r := c.R
+	r.Rule("EQ(deliver): in NodeSLOReconciler.Reconcile the test that decides whether the stored NodeSLO spec is replaced by the calculated one is a full, symmetric equality (reflect.DeepEqual or equality.Semantic.DeepEqual) of the two specs - not a one-sided comparison such as DeepDerivative, under which a setting that was removed (unset in the new spec) never leaves the node")
+	if fn := c.Fn("pkg/slo-controller/nodeslo", "NodeSLOReconciler", "Reconcile"); fn != nil {
+		var upd ssa.CallInstruction
+		for _, cl := range an.Calls(fn, false) {
+			if cl.Common().IsInvoke() && cl.Common().Method.Name() == "Update" {
+				upd = cl
+			}
+		}
+		eqName, okEq := "", false
+		if upd != nil {
+			for _, g := range an.Guards(upd) {
+				v, _ := an.StripNot(g.Cond)
+				if cl, isCl := v.(*ssa.Call); isCl {
+					n := an.CalleeName(&cl.Call)
+					if strings.Contains(n, "Deep") || strings.Contains(n, "Equal") {
+						eqName = n
+						okEq = n == "reflect.DeepEqual" || strings.HasSuffix(n, "Equalities).DeepEqual")
+					}
+				}
+			}
+		}
+		r.Check(upd != nil && okEq, "EQ", fkey(fn)+"/spec-compared-in-full", c.Pos(fn.Pos()), "compared with "+eqName, "the update of the NodeSLO is decided by "+eqName+" (not a full symmetric equality): removals do not propagate to the node")
+	}
 	r.Rule("ERR(deliver): in NodeSLOReconciler.Reconcile, after Client.Create or Client.Update of the NodeSLO returned a non-nil error every reachable return carries a non-nil error (so the work queue retries; no error class is swallowed on the write path)")
 	if fn := c.Fn("pkg/slo-controller/nodeslo", "NodeSLOReconciler", "Reconcile"); fn != nil {
 		n := 0
